@@ -607,6 +607,10 @@ async fn nonce_for(cfg: &str, label: &NodeLabel, ver: u64, value: &AkdValue) -> 
     })
 }
 
+fn rng_bool(rng: &mut crate::rng::Rng) -> bool {
+    rng.chance(1, 2)
+}
+
 fn marker_version(v: u64) -> u64 {
     if v == 0 { 0 } else { 1u64 << (63 - v.leading_zeros()) }
 }
@@ -1319,6 +1323,94 @@ fn step_inner(ex: &mut Exec, st: &mut L1State, op: &str, toks: &[&str]) -> Optio
                     }
                     ex.stats.bump(op, "refused");
                     Some("err".into())
+                }
+            }
+        }
+        // oracle-only (C14): `o.par.sweep <cfg> <cases> <seed>` — structured random (existing tree, batch of the next epoch) pairs
+        // inserted sequentially and with insertion parallelism Static(2|4|16|64): root hash and node count must be identical.
+        // The batches are built so that existing nodes are pushed below new interior nodes with few new leaves on one side
+        // and many on the other (where a parallel path treats sub-trees differently from the sequential one).
+        "o.par.sweep" if toks.len() == 4 => {
+            let cfg = toks[1];
+            let n: usize = toks[2].parse().ok()?;
+            let seed: u64 = toks[3].parse().ok()?;
+            if st.parallelism != AzksParallelismConfig::disabled() {
+                return Some("skipped".into()); // the sweep does its own configurations; once per matrix is enough
+            }
+            let mut rng = crate::rng::Rng::new(seed ^ 0x9e37_79b9_7f4a_7c15);
+            let mut bad: Option<(String, Vec<String>)> = None;
+            let mut shapes = 0usize;
+            for _case in 0..n {
+                // labels: common prefix p (0..20 bits), then a biased branching bit, then random bits
+                let plen = rng.below(21) as usize;
+                let p: Vec<bool> = (0..plen).map(|_| rng.chance(1, 2)).collect();
+                let mk = |rng: &mut crate::rng::Rng, first: bool, second: Option<bool>| -> NodeLabel {
+                    let mut bits = p.clone();
+                    bits.push(first);
+                    if let Some(b) = second {
+                        bits.push(b);
+                    }
+                    while bits.len() < 256 {
+                        bits.push(rng.chance(1, 2));
+                    }
+                    crate::util::label_of_bits(&bits)
+                };
+                let side = rng.chance(1, 2);
+                let k1 = 1 + rng.below(4) as usize;
+                let mut old: Vec<NodeLabel> = (0..k1).map(|_| { let b = rng_bool(&mut rng); mk(&mut rng, side, Some(b)) }).collect();
+                if rng.chance(1, 3) {
+                    old.push(mk(&mut rng, !side, None));
+                }
+                let k2 = 8 + rng.below(14) as usize;
+                let few = 1 + rng.below(2) as usize;
+                let mut newl: Vec<NodeLabel> = vec![];
+                for j in 0..k2 {
+                    // `few` new leaves join the existing ones on their side, the others go to the other side
+                    let b = rng_bool(&mut rng);
+                    newl.push(if j < few { mk(&mut rng, side, Some(b)) } else { mk(&mut rng, !side, None) });
+                }
+                old.sort();
+                old.dedup();
+                newl.sort();
+                newl.dedup();
+                newl.retain(|l| !old.contains(l));
+                rng.shuffle(&mut newl);
+                shapes += 1;
+                let val = |i: usize| AzksValue([(i % 251) as u8 + 1; 32]);
+                let e1: Vec<AzksElement> = old.iter().enumerate().map(|(i, l)| AzksElement { label: *l, value: val(i) }).collect();
+                let e2: Vec<AzksElement> = newl.iter().enumerate().map(|(i, l)| AzksElement { label: *l, value: val(i + 100) }).collect();
+                let run = |par: AzksParallelismConfig| -> Option<([u8; 32], u64)> {
+                    with_cfg!(cfg, TC => st.rt.block_on(async {
+                        let db = akd::storage::memory::AsyncInMemoryDatabase::new();
+                        let mgr = StorageManager::new_no_cache(db);
+                        let mut azks = akd::append_only_zks::Azks::new::<TC, _>(&mgr).await.ok()?;
+                        azks.batch_insert_nodes::<TC, _>(&mgr, e1.clone(), InsertMode::Directory, par).await.ok()?;
+                        azks.batch_insert_nodes::<TC, _>(&mgr, e2.clone(), InsertMode::Directory, par).await.ok()?;
+                        let h = azks.get_root_hash::<TC, _>(&mgr).await.ok()?;
+                        Some((h, azks.num_nodes))
+                    }))
+                };
+                let seq = run(AzksParallelismConfig::disabled());
+                for lv in [2u32, 4, 16, 64] {
+                    let par = AzksParallelismConfig { insertion: akd::append_only_zks::AzksParallelismOption::Static(lv), preload: akd::append_only_zks::AzksParallelismOption::Static(lv) };
+                    let got = run(par);
+                    if got != seq && bad.is_none() {
+                        let show = |v: &Vec<AzksElement>| v.iter().map(|e| format!("{} {}", show_label(&e.label), hex::encode(e.value.0))).collect::<Vec<_>>().join(" ");
+                        bad = Some((
+                            format!("insertion parallelism Static({lv}) gives {:?}, sequential insertion {:?} (existing tree of {} leaves, batch of {})", got.map(|x| (hex::encode(x.0), x.1)), seq.map(|x| (hex::encode(x.0), x.1)), e1.len(), e2.len()),
+                            vec![format!("reset {cfg}"), format!("azks.insert dir {}", show(&e1)), format!("azks.insert dir {}", show(&e2)), "azks.root".into()],
+                        ));
+                    }
+                }
+            }
+            match bad {
+                Some((w, replay)) => {
+                    ex.fail_tag_replay("C14", "parallel-insertion-differs", format!("{:?}: {}", toks, w), replay);
+                    Some("FAIL".into())
+                }
+                None => {
+                    ex.stats.bump(op, "ok");
+                    Some(format!("ok {shapes}"))
                 }
             }
         }
